@@ -422,7 +422,7 @@ class ProgGen:
             if k < 5:
                 return ["("] + sub("bool") + [" ", r.pick(["&&", "||"]), " "] + sub("bool") + [")"]
             if k == 5:
-                return ["!"] + sub("bool")
+                return ["!("] + sub("bool") + [")"]
             if k == 6:
                 return ["Util.isPos("] + sub("int") + [")"]
             if k == 7:
@@ -1480,6 +1480,241 @@ def check_scopes(ctx, rng, stats, hist):
 
 
 
+# ------------------------------------------------------------------ gates II: super types (exact), abstract type arguments, generic conformance, names
+
+def sup_cases(rng, n):
+    """Random declaration graphs of interfaces C1..C6 (+ generic class C9) with cycles, diamonds and
+    generic instantiation. -> (source, model decl tokens, queries)."""
+    out = []
+    for _ in range(n):
+        k = rng.range(2, 6)
+        arity = {i: rng.pick([0, 0, 1, 1, 2]) for i in range(1, k + 1)}
+        arity[9] = 1
+        decls, src = {}, ""
+
+        def ty(avail, d):
+            c = rng.below(6 if d > 0 else 3)
+            if c == 0:
+                return "int", "i"
+            if c == 1 and avail:
+                g = rng.pick(avail)
+                return f"T{g}", f"g{g};"
+            if c == 2:
+                return "bool", "b"
+            a, b = ty(avail, d - 1)
+            return f"C9<{a}>", f"n0,1,9({b})"
+
+        for i in range(1, k + 1):
+            tps = list(range(1, arity[i] + 1))
+            sups = []
+            for _ in range(rng.pick([0, 1, 1, 2, 3])):
+                j = rng.range(1, k)
+                args = [ty(tps, 2) for _ in range(arity[j])]
+                sups.append((f"C{j}" + ("<" + ", ".join(a for a, _ in args) + ">" if args else ""),
+                             f"n0,1,{j}(" + "".join(b for _, b in args) + ")"))
+            decls[i] = (tps, sups)
+            src += (f"interface C{i}" + ("<" + ", ".join(f"T{t}" for t in tps) + ">" if tps else "") +
+                    (" : " + ", ".join(a for a, _ in sups) if sups else "") + f" {{\n  method m{i}(): int\n}}\n")
+        src += "class C9<T1>(val v: T1) {\n  method k(): int = 0\n}\n"
+        toks = [f"1.{i}/{','.join(map(str, tps))}/" + ("|".join(b for _, b in sups) or "-") for i, (tps, sups) in decls.items()]
+        toks.append("1.9/1/-")
+        out.append((src, toks, {i: "n0,1,%d(%s)" % (i, "".join(f"g{t};" for t in decls[i][0])) for i in decls}))
+    return out
+
+
+def check_supers(ctx, rng, n, stats):
+    cases = sup_cases(rng, n)
+    impl = run_impl(["sup " + json.dumps({"source": src, "queries": [f"C{i}" for i in q]}) for src, _, q in cases])
+    mlines, idx = [], []
+    for ci, (src, toks, q) in enumerate(cases):
+        for i, t in q.items():
+            mlines.append("sup " + " ".join(toks) + " ? " + t); idx.append((ci, i))
+    model = run_model(mlines)
+    per = {}
+    for (ci, i), m in zip(idx, model):
+        per.setdefault(ci, {})[i] = m
+    for ci, ((src, toks, q), ia) in enumerate(zip(cases, impl)):
+        got = {}
+        for part in ia.split(" "):
+            f = part.split(":", 2)
+            if len(f) == 3 and f[0].startswith("C"):
+                got[int(f[0][1:])] = (f[1], f[2])
+        for i in q:
+            stats["sup"] += 1
+            m = per[ci][i]
+            mm = re.match(r"c=(\d) x=(\d) (\S+)", m)
+            g = got.get(i)
+            ok = bool(mm) and g is not None and g[0] == "c=" + mm.group(1) and g[1] == mm.group(3) and mm.group(2) == "0"
+            if ok:
+                stats["sup_cyclic"] += int(mm.group(1) == "1")
+                continue
+            stats["sup_disagree"] += 1
+            if stats["sup_disagree"] <= 3:
+                ctx.violation("model/implementation disagreement on protocol sup (resolve_all_transitive_super_types vs Gates.resolveSupers"
+                              + ("; model ran out of its recursion budget" if mm and mm.group(2) == "1" else "") + ")",
+                              {"protocol": "sup", "source": src, "query": f"C{i}", "impl": ia, "model": m, "decls": toks,
+                               "broken": "correspondence sup"}, no_input=True)
+    # cyclic declarations must be reported by the checker (property level)
+    progs = [{"sources": {"Main": src + "class Main {\n  function main(): unit = Process.println(\"m\")\n}\n"},
+              "entry": "Main", "std": False, "compile": True} for src, _, _ in cases[:max(10, n // 4)]]
+    answers = eval_programs(progs)
+    for (src, toks, q), pr, ans, ci in zip(cases, progs, answers, range(len(progs))):
+        cyc = any(re.match(r"c=1", per[ci][i]) for i in q)
+        if cyc:
+            stats["sup_prog_cyclic"] += 1
+            if not any(e["kind"] == "CyclicTypeDefinition" for e in ans.get("errors", [])) or ans.get("compile") == "ok":
+                ctx.violation("cyclic super types not reported by the checker", {"protocol": "prog", "mutant": "cyclic-supertypes",
+                              "module": "Main", "program": pr, "answer": ans, "why": "no CyclicTypeDefinition error / code emitted"})
+
+
+ABS_DECLS = ("interface Ifc {\n  method i(): int\n}\ninterface Cmp<T> {\n  method c(o: T): int\n}\n"
+             "class P(val v: int) {\n  method g(): int = this.v\n}\nclass Opt<T>(None, Some(T)) {\n  method k(): int = 0\n}\n")
+ABS_TABLE = "1.2=0,1.3=0,1.7=1,1.8=1"     # P, Opt concrete; Ifc, Cmp interfaces
+
+
+def abs_type(rng, d):
+    k = rng.below(8 if d > 0 else 4)
+    if k == 0:
+        return "int", "i"
+    if k == 1:
+        return "P", "n0,1,2()"
+    if k == 2:
+        return "Ifc", "n0,1,7()"
+    if k == 3:
+        return "bool", "b"
+    if k in (4, 5):
+        a, b = abs_type(rng, d - 1)
+        return f"Opt<{a}>", f"n0,1,3({b})"
+    if k == 6:
+        a, b = abs_type(rng, d - 1)
+        return f"Cmp<{a}>", f"n0,1,8({b})"
+    n = rng.below(3)
+    args = [abs_type(rng, d - 1) for _ in range(n)]
+    r = abs_type(rng, d - 1)
+    return "(" + ", ".join(a for a, _ in args) + ") -> " + r[0], "f(" + "".join(b for _, b in args) + ")" + r[1]
+
+
+def abs_cases(rng, n):
+    out = []
+    for _ in range(n):
+        txt, mty = abs_type(rng, 2)
+        place = rng.below(4)
+        if place == 0:       # member signature: validated strictly as one function type
+            member = f"  function f(x: {txt}): unit = Process.println(\"k\")\n"; line = f"abs {ABS_TABLE} 1 f({mty})u"
+        elif place == 1:
+            member = f"  function f(): {txt} = Process.panic(\"k\")\n"; line = f"abs {ABS_TABLE} 1 f(){mty}"
+        elif place == 2:     # bound of a type parameter: root may be abstract
+            if not (txt.startswith("Ifc") or txt.startswith("Cmp<") or txt.startswith("P") or txt.startswith("Opt<")):
+                continue
+            member = f"  function <T: {txt}> f(x: int): unit = Process.println(\"k\")\n"; line = f"abs {ABS_TABLE} 0 {mty}"
+        else:                # field type: strict
+            out.append((f"abs/field: {txt}", f"abs {ABS_TABLE} 1 {mty}",
+                        {"Main": ABS_DECLS + f"class K(val fld: {txt}) {{\n  method k(): int = 0\n}}\nclass Main {{\n  function main(): unit = Process.println(\"m\")\n}}\n"}, "Main"))
+            continue
+        out.append((f"abs/place{place}: {txt}", line,
+                    {"Main": ABS_DECLS + "class Main {\n" + member + "  function main(): unit = Process.println(\"m\")\n}\n"}, "Main"))
+    return out
+
+
+def confi_cases(rng, n):
+    out = []
+    base = {"int": "i", "bool": "b", "Str": "n0,0,1()", "P": "n0,1,2()", "unit": "u"}
+    for _ in range(n):
+        targs = [rng.pick(["int", "bool", "Str", "P"]) for _ in range(2)]
+        sub = {"A": targs[0], "B": targs[1]}
+        k = rng.range(1, 3)
+        iface = []
+        for i in range(k):
+            params = [rng.pick(["int", "A", "B", "P", "A"]) for _ in range(rng.below(3))]
+            iface.append((["alpha", "beta", "gamma"][i], params, rng.pick(["A", "B", "int", "unit", "bool"])))
+        inst = lambda t: sub.get(t, t)
+        declared = [[nm, [inst(p) for p in ps], inst(r)] for nm, ps, r in iface]
+        what = "ok"
+        if rng.chance(2, 3):
+            d = declared[rng.below(len(declared))]
+            m = rng.below(3)
+            if m == 0:
+                d[2] = rng.pick([t for t in ("int", "bool", "Str", "P", "unit") if t != d[2]]); what = "return-type"
+            elif m == 1 and d[1]:
+                q = rng.below(len(d[1])); d[1][q] = rng.pick([t for t in ("int", "bool", "Str", "P") if t != d[1][q]]); what = "param-type"
+            elif m == 2:
+                declared.remove(d); what = "missing"
+        mt = lambda t: {"A": "g1;", "B": "g2;"}.get(t, base.get(t))
+        src = ("class P(val v: int) {\n  method g(): int = this.v\n}\n"
+               "interface I<A, B> {\n" + "".join(f"  method {nm}(" + ", ".join(f"x{j}: {p}" for j, p in enumerate(ps)) + f"): {r}\n" for nm, ps, r in iface) + "}\n"
+               f"class C(val z: int) : I<{targs[0]}, {targs[1]}> {{\n" +
+               "".join(f"  method {nm}(" + ", ".join(f"x{j}: {p}" for j, p in enumerate(ps)) + f"): {r} = Process.panic(\"k\")\n" for nm, ps, r in declared) + "}\n"
+               "class Main {\n  function main(): unit = Process.println(\"m\")\n}\n")
+        idx = {"alpha": 1, "beta": 2, "gamma": 3}
+        line = ("confi 1,2 " + " ".join(base[t] for t in targs) + " | " +
+                " ".join(f"{idx[nm]}/1//f(" + "".join(mt(p) for p in ps) + ")" + mt(r) for nm, ps, r in iface) + " | " +
+                " ".join(f"{idx[nm]}/1//f(" + "".join(base[p] for p in ps) + ")" + base[r] for nm, ps, r in declared))
+        out.append((f"confi/{what}", line, {"Main": src}, "Main"))
+    return out
+
+
+def nam_cases():
+    lib = ("class Ext(val v: int) {\n  function mk(): Ext = Ext.init(1)\n  method m(): int = 1\n}\n"
+           "interface ExtI {\n  method i(): int\n}\n")
+    out = []
+    main = lambda imports, expr: ({"lib.N": lib, "Main": imports + "class Loc(val fld: int) {\n  function mk(): Loc = Loc.init(1)\n  method m(): int = 1\n}\n"
+                                   "interface LocI {\n  method i(): int\n}\n"
+                                   f"class Main {{\n  function t(): int = {expr}\n  function main(): unit = Process.println(\"m\")\n}}\n"}, "Main")
+    tab = "2.5=1,2.6=0,1.7=1,1.8=0,1.9=1"     # lib.N = module 2: Ext=5 (class), ExtI=6 (interface); Main = 1: Loc=7, LocI=8, Main=9
+    imp = "import { Ext } from lib.N;\n"
+    for label, imports, impm, expr, name in [
+            ("imported-class", imp, "5=2", "Ext.mk().m()", 5), ("local-class", imp, "5=2", "Loc.mk().m()", 7),
+            ("not-imported-class", "", "-", "Ext.mk().m()", 5), ("unknown-class", imp, "5=2", "Nope9.mk()", 99),
+            ("imported-interface-as-class", "import { ExtI } from lib.N;\n", "6=2", "ExtI.mk()", 6),
+            ("local-interface-as-class", imp, "5=2", "LocI.mk()", 8)]:
+        out.append((f"nam/class/{label}", f"nam class {impm} 1 {tab} {name}") + main(imports, expr))
+    for label, mod, m in [("existing-module", "lib.N", 2), ("missing-module", "lib.Nope", 3)]:
+        srcs, module = main(f"import {{ Ext }} from {mod};\n", "1")
+        out.append((f"nam/module/{label}", f"nam module 1,2 {m}", srcs, module))
+    for label, expr, name in [("method", "Loc.mk().m()", 1), ("field", "Loc.mk().fld", 2), ("unknown-member", "Loc.mk().nope9", 3),
+                              ("unknown-method-call", "Loc.mk().nope9()", 3), ("unknown-static", "Loc.nope9()", 3)]:
+        ms = "1=1" if "static" not in label else "4=1"
+        out.append((f"nam/member/{label}", f"nam member {ms} 2=1 {name}") + main(imp, expr))
+    return out
+
+
+def check_gates2(ctx, rng, stats, hist):
+    check_supers(ctx, rng.fork(), ctx.scale(60, 1500), stats)
+    cases = abs_cases(rng.fork(), ctx.scale(120, 2500)) + confi_cases(rng.fork(), ctx.scale(120, 2500)) + nam_cases()
+    model = run_model([c[1] for c in cases])
+    answers = eval_programs([{"sources": c[2], "entry": "Main", "std": False, "compile": True} for c in cases])
+    for (label, line, prog, module), m, ans in zip(cases, model, answers):
+        fam = label.split("/")[0]
+        stats["gate"] += 1
+        hist["gate:" + fam] = hist.get("gate:" + fam, 0) + 1
+        verdict = gate_verdict(ans, module)
+        pr = {"sources": prog, "entry": "Main", "std": False, "compile": True}
+        want_kind = {"nam/class": "CannotResolveClass", "nam/module": "CannotResolveModule",
+                     "nam/member": "CannotResolveMember"}.get("/".join(label.split("/")[:2]))
+        if m == "0" and verdict == "reject" and want_kind and not any(e["kind"] == want_kind for e in ans["errors"]):
+            stats["gate_overstrict"] += 1
+            ctx.violation(f"gate correspondence broken ({label}): rejected, but not by the gate the model describes (no {want_kind} error)",
+                          {"protocol": "prog", "mutant": "gate " + label, "module": module, "program": pr,
+                           "answer": ans, "model_line": line, "broken": "nam correspondence (error kind)"}, no_input=True)
+        elif m == "0" and verdict == "reject":
+            stats["gate_rejected"] += 1
+        elif m == "1" and verdict == "accept":
+            stats["gate_accepted"] += 1
+        elif m == "0":
+            stats["gate_slipped"] += 1
+            if stats["gate_slipped"] <= 4:
+                ctx.violation(f"static error not rejected ({label}): {verdict}; the model of the gate rejects it",
+                              {"protocol": "prog", "mutant": "gate " + label, "module": module, "program": pr,
+                               "answer": ans, "why": verdict, "model_line": line})
+        else:
+            stats["gate_overstrict"] += 1
+            if stats["gate_overstrict"] <= 3:
+                ctx.violation(f"gate correspondence broken ({label}): model says {m}, front end says {verdict}",
+                              {"protocol": "prog", "mutant": "gate " + label, "module": module, "program": pr,
+                               "answer": ans, "model_line": line, "broken": "gate correspondence (accept side)"}, no_input=True)
+
+
+
 def shrink_program(prog, module, base):
     """Structural shrinking of a generated mutant: drop whole `function fK` definitions of the
     mutated module that are identical to the base program's (so the fault stays), as long as the
@@ -1509,7 +1744,7 @@ def run(ctx):
     rng = ctx.rng
     stats = {k: 0 for k in ["tok", "tok_disagree", "tok_literals", "tok_out_of_range", "tok_f1", "lit", "lit_f1",
                             "asg", "asg_disagree", "asg_accept", "asg_anyfree", "slv", "slv_accept",
-                            "scope", "scope_rejected", "scope_accepted", "scope_slipped", "scope_base_rejected", "scope_ssa_compared", "scope_ssa_disagree", "scope_ssa_unparsed", "gate", "gate_rejected", "gate_accepted", "gate_slipped", "gate_overstrict", "join", "join_rejected", "join_accepted", "join_slipped", "join_base_rejected", "base_programs", "mutants", "mutants_rejected", "mutants_slipped", "tok_oracle_fail", "slv_disagree", "asg_spec_fail", "prog_f1", "prog_f2",
+                            "sup", "sup_cyclic", "sup_disagree", "sup_prog_cyclic", "scope", "scope_rejected", "scope_accepted", "scope_slipped", "scope_base_rejected", "scope_ssa_compared", "scope_ssa_disagree", "scope_ssa_unparsed", "gate", "gate_rejected", "gate_accepted", "gate_slipped", "gate_overstrict", "join", "join_rejected", "join_accepted", "join_slipped", "join_base_rejected", "base_programs", "mutants", "mutants_rejected", "mutants_slipped", "tok_oracle_fail", "slv_disagree", "asg_spec_fail", "prog_f1", "prog_f2",
                             "sample_sites_total", "sample_bases_accepted"]}
     hist, errkinds, samples_out = {}, {}, []
     built = os.path.exists(common.harness_bin("C06")) and os.path.exists(common.driver_bin("C06")) and \
@@ -1538,10 +1773,11 @@ def run(ctx):
         check_types(ctx, rng, ctx.scale(20000, 300000), stats)
         check_joins(ctx, rng, ctx.scale(2, 20), stats, hist)
         check_gates(ctx, rng, stats, hist)
+        check_gates2(ctx, rng, stats, hist)
         check_scopes(ctx, rng, stats, hist)
         check_mutants(ctx, rng, ctx.scale(1600, 12000), ctx.scale(500, 8000), stats, hist, errkinds, samples_out)
     ctx.cov.update({
-        "evaluations": stats["tok"] + stats["lit"] + stats["asg"] + stats["slv"] + stats["mutants"] + stats["join"] + stats["gate"] + stats["scope"],
+        "evaluations": stats["tok"] + stats["lit"] + stats["asg"] + stats["slv"] + stats["mutants"] + stats["join"] + stats["gate"] + stats["scope"] + stats["sup"],
         "distinct_nontrivial": stats["tok_out_of_range"] + stats["asg_accept"] + stats["slv_accept"] + stats["mutants_rejected"] + stats["join_rejected"] + stats["gate_rejected"] + stats["scope_rejected"],
         "rule": "evaluations = token streams + literal expressions + type pairs + constraint problems + program mutants, each run "
                 "through the real crates; non-trivial = out-of-range literals inside token streams + type pairs the kernel "
